@@ -7,7 +7,9 @@ package main
 //   init   full | nomodel | noserial | nojson | nosvg | noname | late   (what the panel answers to the initial request;
 //          late = everything at once except the SVG which comes 2.5 s after the request)
 //   bind   comma list of bindings: t<id> trigger, b<id> binary, p<id> pulsed, a<id> absolute, i<id> intensity ("-" = none)
-//   fb     1 = every handler sends feedback with SetLEDColor (into the queue the dispatching loop drains)
+//   fb     1 = every handler sends feedback with SetLEDColor (into the queue the dispatching loop drains);
+//          2 = every handler starts `fbn` (default 40) goroutines that each send one large state (`fbsz` bytes of graphics,
+//          default 1 MiB) with SendRawState: feedback that backs up behind a panel which is not reading (binary only)
 //   race   1 = a second goroutine keeps re-registering the same handlers while the history is sent (child process);
 //          2 = the same in a race-instrumented child (built on demand; `skip:norace` if that is not possible)
 //   seg    0 = one write per message, 1 = one byte per write, r<seed> = random cuts
@@ -15,15 +17,18 @@ package main
 //          eb<id>.<pressed>.<edge> | ep<id>.<v> | ea<id>.<v> | es<id>.<v> | en<id> (event without component)
 //          ex<id>.<pressed>.<edge>.<v> (binary + pulsed in one event) | g (ping) | i<model>.<serial>.<name> (hex, - empty)
 //          t<jsonhex>.<svghex>.<nHWc> | m<k>:<v>,… | xo<len> (header only, len ≥ limit) | xt<n> (header n, n-3 bytes, 2.5 s stall)
-//          B<n>.<id> (n binary press events) | w<ms>
+//          B<n>.<id> (n binary press events) | w<ms> | P (the panel stops reading its socket) | R (… reads again)
 //
-// Output: init=ok|err  inv=<tok,tok…>  acks=<n>  pings=<n>  fb=<n>  model= serial= name=  tj= sv= tn= av=  tconn= tlast= closed=
+// Output: init=ok|err  inv=<tok,tok…>  acks=<n>  pings=<n>  fb=<n>  model= serial= name=  tj= sv= tn= tg= tf= av=  tconn= tlast= closed=
+//   tg = digest of json.Marshal(GetTopology()), tf = digest of json.Marshal of a FRESH unmarshal of the stored topology JSON (tj)
 //   invocation tokens: t<id>.<component summary> b<id>.<status>.<edge> p<id>.<v> a<id>.<v> i<id>.<v>
 
 import (
 	"bufio"
 	"bytes"
 	"context"
+	"crypto/sha256"
+	"encoding/json"
 	"encoding/hex"
 	"fmt"
 	"image/color"
@@ -41,6 +46,7 @@ import (
 
 	helpers "github.com/SKAARHOJ/rawpanel-lib"
 	"github.com/SKAARHOJ/rawpanel-lib/gorwp"
+	"github.com/SKAARHOJ/rawpanel-lib/topology"
 	rwp "github.com/SKAARHOJ/rawpanel-lib/ibeam_rawpanel"
 	"google.golang.org/protobuf/proto"
 )
@@ -264,6 +270,10 @@ func gwParseHist(h string) []gwItem {
 		case 'w':
 			n, _ := strconv.Atoi(it[1:])
 			items = append(items, gwItem{kind: "wait", n: n})
+		case 'P':
+			items = append(items, gwItem{kind: "pause"})
+		case 'R':
+			items = append(items, gwItem{kind: "resume"})
 		}
 	}
 	return items
@@ -365,10 +375,15 @@ func gwRun(a map[string]string) string {
 		initv = "full"
 	}
 	fb := nlInt(a, "fb", 0) == 1
+	fbBig := nlInt(a, "fb", 0) == 2
+	fbn, fbsz := nlInt(a, "fbn", 40), nlInt(a, "fbsz", 1<<20)
 	race := nlInt(a, "race", 0) > 0
 	seg := a["seg"]
 	items := gwParseHist(a["hist"])
 	if !bin {
+		if fbBig {
+			return "skip:binary-only"
+		}
 		for _, it := range items {
 			if it.kind == "over" || it.kind == "trunc" {
 				return "skip:binary-only"
@@ -409,6 +424,9 @@ func gwRun(a map[string]string) string {
 	panelDone := make(chan struct{}) // panel goroutines finished
 	stop := make(chan struct{})
 	var acks, pings, fbk int32
+	var paused int32  // the panel does not read its socket
+	var lastRx int64  // unix nanos of the last ack / feedback frame the panel parsed
+	var histDoneAt int64
 	var sawClose int32
 	var segRng *Rng
 	if strings.HasPrefix(seg, "r") {
@@ -425,6 +443,9 @@ func gwRun(a map[string]string) string {
 			return
 		}
 		defer c.Close()
+		if tc, ok := c.(*net.TCPConn); ok && fbBig {
+			tc.SetReadBuffer(256 * 1024) // keep the kernel from absorbing the whole backlog
+		}
 		gotPing := make(chan struct{})
 		gotLF := make(chan struct{})
 		gotReq := make(chan struct{})
@@ -436,6 +457,14 @@ func gwRun(a map[string]string) string {
 			total := 0
 			pingSeen, lfSeen, reqSeen := false, false, false
 			for {
+				for atomic.LoadInt32(&paused) == 1 {
+					select {
+					case <-stop:
+						return
+					default:
+					}
+					time.Sleep(2 * time.Millisecond)
+				}
 				n, err := c.Read(buf)
 				if n > 0 {
 					total += n
@@ -469,10 +498,12 @@ func gwRun(a map[string]string) string {
 								switch {
 								case m.FlowMessage == rwp.InboundMessage_ACK:
 									atomic.AddInt32(&acks, 1)
+									atomic.StoreInt64(&lastRx, time.Now().UnixNano())
 								case m.FlowMessage == rwp.InboundMessage_PING:
 									atomic.AddInt32(&pings, 1)
 								case len(m.States) > 0:
 									atomic.AddInt32(&fbk, 1)
+									atomic.StoreInt64(&lastRx, time.Now().UnixNano())
 								}
 							} else {
 								i := bytes.IndexByte(acc, '\n')
@@ -484,9 +515,11 @@ func gwRun(a map[string]string) string {
 								switch {
 								case l == "ack":
 									atomic.AddInt32(&acks, 1)
+									atomic.StoreInt64(&lastRx, time.Now().UnixNano())
 								case l == "ping":
 									atomic.AddInt32(&pings, 1)
 								case strings.HasPrefix(l, "HWC#"):
+									atomic.StoreInt64(&lastRx, time.Now().UnixNano())
 									atomic.AddInt32(&fbk, 1) // mode line of the feedback (the colour line is HWCc#)
 								}
 							}
@@ -615,8 +648,14 @@ func gwRun(a map[string]string) string {
 				case <-time.After(time.Duration(it.n) * time.Millisecond):
 				case <-stop:
 				}
+			case "pause":
+				atomic.StoreInt32(&paused, 1)
+			case "resume":
+				atomic.StoreInt32(&paused, 0)
 			}
 		}
+		atomic.StoreInt32(&paused, 0)
+		atomic.StoreInt64(&histDoneAt, time.Now().UnixNano())
 		close(histDone)
 		select {
 		case <-stop:
@@ -644,9 +683,19 @@ func gwRun(a map[string]string) string {
 	}
 
 	// bindings
+	var big []byte
+	if fbBig {
+		big = make([]byte, fbsz)
+	}
 	feedback := func(id uint32) {
 		if fb {
 			rp.SetLEDColor(id, color.RGBA{R: 255, A: 255}, rwp.HWCMode_ON)
+		}
+		if fbBig {
+			// a lot of feedback that the handler itself does not wait for
+			for i := 0; i < fbn; i++ {
+				go rp.SendRawState(&rwp.HWCState{HWCIDs: []uint32{id}, HWCGfx: &rwp.HWCGfx{W: 64, H: 32, ImageData: big}})
+			}
 		}
 	}
 	type binding struct {
@@ -725,12 +774,23 @@ func gwRun(a map[string]string) string {
 	case <-histDone:
 	case <-time.After(30 * time.Second):
 	}
+	// quiet = nothing invoked, and no ack / feedback frame seen by the panel, for a while AFTER the last byte of the
+	// history went out (events sent right at the end of a long script must get their chance to be dispatched)
 	quietNeeded := 700 * time.Millisecond
 	deadline := time.Now().Add(6 * time.Second)
+	if fbBig {
+		deadline = time.Now().Add(15 * time.Second)
+	}
 	for time.Now().Before(deadline) {
 		mu.Lock()
-		q := time.Since(lastInv)
+		ref := lastInv
 		mu.Unlock()
+		for _, ns := range []int64{atomic.LoadInt64(&histDoneAt), atomic.LoadInt64(&lastRx)} {
+			if ns != 0 && time.Unix(0, ns).After(ref) {
+				ref = time.Unix(0, ns)
+			}
+		}
+		q := time.Since(ref)
 		if q >= quietNeeded {
 			break
 		}
@@ -746,8 +806,14 @@ func gwRun(a map[string]string) string {
 	mu.Unlock()
 	tj, sv, av := gwReflectState(rp)
 	tn := -1
+	tg, tf := "-", "-"
 	if top := rp.State.GetTopology(); top != nil {
 		tn = len(top.HWc)
+		tg = gwTopoDigest(top)
+		fresh := &topology.Topology{}
+		if json.Unmarshal([]byte(tj), fresh) == nil {
+			tf = gwTopoDigest(fresh)
+		}
 	}
 	model, serial, name := rp.State.GetModel(), rp.State.GetSerial(), rp.State.GetName()
 	time.Sleep(50 * time.Millisecond) // let the last acks / feedback reach the panel
@@ -756,7 +822,7 @@ func gwRun(a map[string]string) string {
 		" pings=" + strconv.Itoa(int(atomic.LoadInt32(&pings))) +
 		" fb=" + strconv.Itoa(int(atomic.LoadInt32(&fbk))) +
 		" model=" + hx([]byte(model)) + " serial=" + hx([]byte(serial)) + " name=" + hx([]byte(name)) +
-		" tj=" + hx([]byte(tj)) + " sv=" + hx([]byte(sv)) + " tn=" + strconv.Itoa(tn) + " av=" + av +
+		" tj=" + hx([]byte(tj)) + " sv=" + hx([]byte(sv)) + " tn=" + strconv.Itoa(tn) + " tg=" + tg + " tf=" + tf + " av=" + av +
 		" closed=" + strconv.Itoa(int(atomic.LoadInt32(&sawClose))) +
 		" tconn=" + strconv.FormatInt(tconn, 10) + " tlast=" + strconv.FormatInt(tlast, 10)
 	rp.Close()
@@ -764,6 +830,18 @@ func gwRun(a map[string]string) string {
 	ln.Close()
 	<-panelDone
 	return res
+}
+
+// digest of the JSON form of a parsed topology (map keys are sorted by encoding/json)
+func gwTopoDigest(t *topology.Topology) string {
+	t.Lock()
+	b, err := json.Marshal(t)
+	t.Unlock()
+	if err != nil {
+		return "err"
+	}
+	h := sha256.Sum256(b)
+	return hex.EncodeToString(h[:8])
 }
 
 func gwJoin(t []string) string {
@@ -862,12 +940,31 @@ func gwRandUpdate(r *Rng, ver int) string {
 		}
 		return "i" + strings.Join(f, ".")
 	case 2:
+		// topologies of varying shape: a later one may drop the title, components, per-component fields or type definitions
 		n := r.Range(1, 4)
 		hw := []string{}
 		for i := 1; i <= n; i++ {
-			hw = append(hw, `{"id":`+i2(i)+`,"type":1}`)
+			c := `{"id":` + i2(i)
+			if r.Chance(40) {
+				c += `,"x":` + i2(r.Range(1, 900)) + `,"y":` + i2(r.Range(1, 900)) + `,"txt":"c` + i2(ver) + `"`
+			}
+			hw = append(hw, c+`,"type":`+i2(r.Range(1, 3))+`}`)
 		}
-		js := `{"title":"T` + i2(ver) + `","HWc":[` + strings.Join(hw, ",") + `],"typeIndex":{"1":{"w":10,"subidx":0}}}`
+		ti := []string{}
+		for k := 1; k <= 3; k++ {
+			if r.Chance(60) || (k == 3 && len(ti) == 0) {
+				d := `"` + i2(k) + `":{"w":` + i2(10*k)
+				if r.Chance(30) {
+					d += `,"h":` + i2(r.Range(5, 50)) + `,"in":"b"`
+				}
+				ti = append(ti, d+`,"subidx":0}`)
+			}
+		}
+		title := ""
+		if r.Chance(50) {
+			title = `"title":"T` + i2(ver) + `",`
+		}
+		js := `{` + title + `"HWc":[` + strings.Join(hw, ",") + `],"typeIndex":{` + strings.Join(ti, ",") + `}}`
 		if r.Chance(30) {
 			return "t-." + gwHexOf(`<svg id="s`+i2(ver)+`"></svg>`) + ".0"
 		}
@@ -945,6 +1042,20 @@ func genC19(r *Rng, n int, tier string) {
 		}
 		add("mode="+mode, "init=full", "bind="+allBind, "fb="+i2(r.Pick(0, 0, 1)), "seg="+seg, "hist="+strings.Join(h, ";"))
 	}
+	// topology updates: a rich topology, then a smaller one that drops the title, two components, per-component fields
+	// and type definitions (the getter must show the latest one only), and the other way round
+	topoA := `{"title":"Panel A","HWc":[{"id":1,"x":100,"y":200,"txt":"Button","type":10},{"id":2,"x":300,"y":200,"txt":"Knob","type":20},{"id":3,"type":10}],` +
+		`"typeIndex":{"10":{"w":100,"h":50,"in":"b","subidx":0,"disp":{"w":64,"h":32,"subidx":-1}},"20":{"w":80,"in":"pb","subidx":0}}}`
+	topoB := `{"HWc":[{"id":1,"type":30}],"typeIndex":{"30":{"w":60,"h":400,"in":"av","subidx":0}}}`
+	for _, mode := range modes {
+		add("mode="+mode, "init=full", "bind=b1", "fb=0", "seg=0", "hist=t"+gwHexOf(topoB)+".-.1;eb1.1.0")
+		add("mode="+mode, "init=full", "bind=b1", "fb=0", "seg=0", "hist=t"+gwHexOf(topoA)+".-.3;eb1.1.0;t"+gwHexOf(topoB)+".-.1;eb1.0.0")
+		add("mode="+mode, "init=full", "bind=b1", "fb=0", "seg=0", "hist=t"+gwHexOf(topoB)+".-.1;t"+gwHexOf(topoA)+".-.3;t"+gwHexOf(topoB)+".-.1")
+	}
+	// back-pressure: the panel stops reading while a handler's large feedback piles up in the outgoing queue, pings in
+	// that window, then reads again: every ping still gets exactly one acknowledge
+	add("mode=bin", "init=full", "bind=b1", "fb=2", "seg=0", "hist=g;w100;P;w50;eb1.1.0;w700;g;w300;R;w500;g")
+	add("mode=bin", "init=full", "bind=b1", "fb=2", "fbn=24", "seg=0", "hist=P;w50;eb1.1.0;w500;g;g;w300;R")
 	// pings only: one ack each
 	for _, mode := range modes {
 		add("mode="+mode, "init=full", "bind=b1", "fb=0", "seg=0", "hist=g;g;eb1.1.0;g;w1200;g;g")
